@@ -157,6 +157,24 @@ def tlc(module, cfg=None, name=None, workers=4, timeout=600, env=None, simulate=
     return r
 
 
+def tlapm_prove(module, deps, timeout=900, threads=8):
+    """Check the TLAPS proofs in spec/<module>.tla (unbounded; no constants are fixed) in a scratch copy.
+    Returns the number of proof obligations; raises ToolError unless every obligation is proved."""
+    d = os.path.join(BUILD, "tlapm", "%s_%d" % (module, os.getpid()))
+    shutil.rmtree(d, ignore_errors=True)
+    os.makedirs(d, exist_ok=True)
+    for m in [module] + list(deps):
+        shutil.copy(os.path.join(SPEC, m + ".tla"), d)
+    p = subprocess.run(["timeout", str(timeout), "tlapm", "--threads", str(threads), module + ".tla"], cwd=d,
+                       stdout=subprocess.PIPE, stderr=subprocess.STDOUT, text=True)
+    m = re.search(r"All (\d+) obligations? proved", p.stdout)
+    shutil.rmtree(d, ignore_errors=True)
+    if p.returncode != 0 or not m:
+        sys.stderr.write(p.stdout[-3000:])
+        raise ToolError("tlapm: proofs of %s not all discharged (rc=%s)" % (module, p.returncode))
+    return int(m.group(1))
+
+
 def tlc_expect_ok(r, what):
     if not r.ok:
         sys.stderr.write(r.out[-5000:])
